@@ -381,7 +381,24 @@ def sched():
     _emit('Sched', body)
 
 
-ALL = dict(sched=sched, logger_facts=logger_facts, xml_facts=xml_facts, timer_consts=timer_consts, schema_utest=schema_utest, consts=consts, itoa_table=itoa_table, mon_days=mon_days, tables_utest=tables_utest)
+def mpmc():
+    """geometry constants of ff::uMPMC_Ptr_Queue (class-local enum and the lower bound applied by init)"""
+    s = _src('include/fix8/ff/mpmc/MPMCqueues.hpp')
+    m = re.search(r'class uMPMC_Ptr_Queue\s*\{(.*?)\n\};', s, re.S)
+    if not m:
+        raise FactError('class uMPMC_Ptr_Queue not found in include/fix8/ff/mpmc/MPMCqueues.hpp')
+    body = m.group(1)
+    e = re.search(r'enum\s*\{\s*DEFAULT_NUM_QUEUES\s*=\s*(\d+)\s*,\s*DEFAULT_uSPSC_SIZE\s*=\s*(\d+)\s*\}', body)
+    lo = re.search(r'if\s*\(\s*nqueues\s*<\s*(\d+)\s*\)\s*nqueues\s*=\s*(\d+)\s*;', body)
+    if not e or not lo or lo.group(1) != lo.group(2):
+        raise FactError('uMPMC_Ptr_Queue default geometry / lower bound of init not recognised')
+    if not re.search(r'if\s*\(\s*!isPowerOf2\(nqueues\)\s*\)\s*nqueues\s*=\s*nextPowerOf2\(nqueues\)\s*;\s*mask\s*=\s*nqueues\s*-\s*1\s*;', body):
+        raise FactError('uMPMC_Ptr_Queue::init no longer rounds the slot count to a power of two with mask = nqueues-1')
+    _emit('MpmcConsts', '/-- `uMPMC_Ptr_Queue::DEFAULT_NUM_QUEUES`, `DEFAULT_uSPSC_SIZE`, and the lower bound `init` applies to `nqueues` -/\n'
+          'def mpmcDefaultQueues : Nat := %s\ndef mpmcDefaultInner : Nat := %s\ndef mpmcMinQueues : Nat := %s\n' % (e.group(1), e.group(2), lo.group(1)))
+
+
+ALL = dict(mpmc=mpmc, sched=sched, logger_facts=logger_facts, xml_facts=xml_facts, timer_consts=timer_consts, schema_utest=schema_utest, consts=consts, itoa_table=itoa_table, mon_days=mon_days, tables_utest=tables_utest)
 
 
 def generate(names):
